@@ -227,6 +227,8 @@ def cases(draw, opts):
         lay = draw(multifile.layouts(opts, min_files=1, max_files=5))
         variation = draw(st.sampled_from(['hashseed', 'hashseed', 'cwd', 'order', 'alone', 'second_call',
                                           'after_other']))
+        if lay.nfiles >= 4 and draw(st.booleans()):
+            variation = 'hashseed'      # include graphs with diamonds: symbol sets are where hash order could leak
     if variation == 'hashseed':
         param = draw(st.one_of(st.just(1), st.integers(2, 2 ** 32 - 1)))
     elif variation == 'order':
@@ -259,7 +261,7 @@ def gen_opts():
 
 
 def worker(widx, seed, tier, stats):
-    n = {'quick': 30, 'thorough': 1500}[tier]
+    n = {'quick': 50, 'thorough': 1500}[tier]
     runner.run_given(cases(gen_opts()), body, seed, n, stats, shrink=(tier == 'thorough'))
     if not stats.violations:
         runner.run_given(twin_cases(gen_opts()), twin_body, seed + 3, max(n // 4, 6), stats, shrink=(tier == 'thorough'))
